@@ -23,8 +23,9 @@ VMDK_TEXT = (b'createType="monolithicSparse"\n# Disk DescriptorFile\nversion=1\n
 def build(c, rnd):
     n = c['n']
     bg = c['bg']
-    if c['zero'] == 'vmdk_text':
+    if c['zero'] in ('vmdk_text', 'vmdk_text_longtype'):
         # the whole content is a text descriptor (padded with a comment), other signatures overlaid below
+        VMDK_TEXT = globals()['VMDK_TEXT'] if c['zero'] == 'vmdk_text' else globals()['VMDK_TEXT'].replace(b'monolithicSparse', b'monolithicSparse' + b'Q' * 54)
         body = VMDK_TEXT + b'#' + b'x' * max(0, n)
         data = bytearray(body[:n]) if n <= len(VMDK_TEXT) else bytearray((VMDK_TEXT + b'#' + b'x' * (n - len(VMDK_TEXT) - 2) + b'\n')[:n])
         if c['fat']:
@@ -70,10 +71,18 @@ def build(c, rnd):
     return bytes(data)
 
 
+class BareSource:
+    def __init__(self, fh):
+        self.read = fh.read
+
+
 def decide_real(fi, data, read_size, allowed, expected=None):
     """Read through InspectWrapper sampling the decision after every read."""
     from vf import insp
-    w = fi.InspectWrapper(io.BytesIO(data), allowed_formats=allowed, **({'expected_format': expected} if expected else {}))
+    src = io.BytesIO(data)
+    if read_size in (17, 4096):
+        src = BareSource(src)       # all a source has to offer is read()
+    w = fi.InspectWrapper(src, allowed_formats=allowed, **({'expected_format': expected} if expected else {}))
 
     def sample():
         try:
@@ -154,7 +163,7 @@ def _job(args):
             sizes.append(1)
         if deep:
             sizes.append(rnd.randint(1, max(1, n)))
-        if c['zero'] == 'vmdk_text':
+        if c['zero'] in ('vmdk_text', 'vmdk_text_longtype'):
             # text-descriptor mode is only defined when the first read covers the descriptor (finding F1)
             sizes = [s for s in (4096, 65536, 1 << 20) if s >= n] or [1 << 20]
         probs = []
@@ -201,7 +210,7 @@ def _job(args):
                 if h is not None:
                     seen = h
         det = None
-        if not c['allowed'] and idx % 3 == 0 and not (c['zero'] == 'vmdk_text' and n > 4096):
+        if not c['allowed'] and idx % 3 == 0 and not (c['zero'] in ('vmdk_text', 'vmdk_text_longtype') and n > 4096):
             path = os.path.join(workdir, 'c03_%d.bin' % idx)
             with open(path, 'wb') as fh:
                 fh.write(data)
@@ -270,7 +279,7 @@ def run(ctx):
     rnd.shuffle(picks)
     for idx, rec in picks[:(1500 if quick else 12000)]:
         c = rec['c']
-        if c['zero'] == 'vmdk_text':
+        if c['zero'] in ('vmdk_text', 'vmdk_text_longtype'):
             continue
         data = build(c, random.Random(ctx.seed * 65537 + idx))
         sz = rnd.choice([512, 4096, 65536]) if len(data) > 3000 else rnd.choice([17, 64, 512])
